@@ -701,7 +701,14 @@ class Evaluator:
             if isinstance(t, ast.Subscript):
                 base = self.ev(t.value)
                 if isinstance(base, (list, dict)):
-                    base[self.ev(t.slice)] = value
+                    if isinstance(t.slice, ast.Slice):
+                        sl = t.slice
+                        idx = slice(self.ev(sl.lower) if sl.lower else None,
+                                    self.ev(sl.upper) if sl.upper else None,
+                                    self.ev(sl.step) if sl.step else None)
+                        base[idx] = list(value)
+                    else:
+                        base[self.ev(t.slice)] = value
                     return
             raise Unsupported("table evaluator: store %s" % unparse(t))
         if isinstance(st, ast.AugAssign) and \
